@@ -11,7 +11,7 @@ for p in sorted(glob.glob('/verif/seeded/*/meta.json')):
     res = str(m.get('check_result', '')).replace('|', '/')
     rows.append(f"| {os.path.basename(os.path.dirname(p))} | {m.get('property','')} | {needs} | {res} |")
 tbl = "\n".join(rows) + "\n"
-d = re.sub(r"\| seeded change \(/verif/seeded/<name>/\) \|.*?\n\n", tbl + "\n", d, count=1, flags=re.S)
+d = re.sub(r"\| seeded change \(/verif/seeded/<name>/\) \|.*?\n\n", lambda _m: tbl + "\n", d, count=1, flags=re.S)
 if len(sys.argv) > 1:
     rr = {}
     for l in open(sys.argv[1]):
@@ -22,6 +22,6 @@ if len(sys.argv) > 1:
     for n in sorted(rr):
         prop, verdict, classes = rr[n]
         rows.append(f"| {n} | {prop} | {verdict} | {','.join(sorted(set(classes.split(','))))} |")
-    d = re.sub(r"\| mutant \(/verif/mutants/<name>\.diff\) \|.*?\n\n", "\n".join(rows) + "\n\n", d, count=1, flags=re.S)
+    d = re.sub(r"\| mutant \(/verif/mutants/<name>\.diff\) \|.*?\n\n", lambda _m: "\n".join(rows) + "\n\n", d, count=1, flags=re.S)
 open('/verif/DESIGN.md', 'w').write(d)
 print(len(glob.glob('/verif/seeded/*/meta.json')), "seeded rows")
